@@ -94,7 +94,7 @@ class Ctx:
         n = self._viol_sigs.get(sig, 0)
         self._viol_sigs[sig] = n + 1
         if n < 3 and len(self.replays) < MAX_REPLAYS:
-            rdir = os.path.join(VERIF, "replays")
+            rdir = os.path.join(VERIF, "replays") if self.repo == "/repo" else os.path.join(build.CACHE, "alt-tree", "replays")
             os.makedirs(rdir, exist_ok=True)
             path = os.path.join(rdir, "%s-%d.json" % (self.pid, len(self.replays) + 1))
             with open(path, "w") as fh:
@@ -165,7 +165,8 @@ def write_evidence(ctx, level, coverage):
         "known_findings_hit": ctx.known_hit,
         "repo": ctx.repo,
     }
-    edir = os.path.join(VERIF, "evidence")
+    # evidence/ and replays/ describe /repo only; runs against another tree (VERIF_REPO) go to the cache
+    edir = os.path.join(VERIF, "evidence") if ctx.repo == "/repo" else os.path.join(build.CACHE, "alt-tree", "evidence")
     os.makedirs(edir, exist_ok=True)
     path = os.path.join(edir, ctx.pid + ".json")
     with open(path, "w") as f:
